@@ -59,6 +59,24 @@ def scenario(r, i, with_sub):
     return {"name": "nack-e2e-%d-%s" % (i, "sub" if with_sub else "alone"), "fixture": sig.fixture(0, 0), "steps": st, "x": {"missing": missing}}
 
 
+def fast_scenario():
+    """about 1900 packets/s for 1.6 s (the rate estimate behind the receive loop's NACK delay saturates), then losses"""
+    seq, script, missing = 2000, [], []
+    for i in range(3000):
+        script.append(["p", seq & 0xFFFF, i % 2])
+        seq += 1
+    for k in range(3):
+        missing.append(seq & 0xFFFF)
+        seq += 1
+        for i in range(150):
+            script.append(["p", seq & 0xFFFF, i % 2])
+            seq += 1
+    J = lambda c: ["send", c, {"type": "join", "kind": "join", "group": "g", "username": "user-" + c, "password": "wp"}]
+    S = ["settle"]
+    st = [["ws", "P"], J("P"), S, ["rtpscript", "P", "s1", "camera", script], ["rtpwait", "P", "s1", 30000], ["sleep", 150], ["hooklog"], S]
+    return {"name": "nack-e2e-fast-alone", "fixture": sig.fixture(0, 0), "steps": st, "x": {"missing": missing}}
+
+
 def run(rep, w, tier, pid, replay=None):
     thorough = tier == "thorough"
     if replay:
@@ -68,7 +86,7 @@ def run(rep, w, tier, pid, replay=None):
         behs = rp["nack_behaviours"]
     else:
         r = random.Random(C.seed() * 7919 + 3)
-        behs = [scenario(r, i, i % 2 == 1) for i in range(24 if thorough else 6)]
+        behs = [scenario(r, i, i % 2 == 1) for i in range(24 if thorough else 6)] + [fast_scenario()]
     script = os.path.join(w, "nack_script.json")
     json.dump(behs, open(script, "w"))
     binp = C.go_build(w, "./cmd/srvdrive", "srvdrive")
